@@ -590,7 +590,7 @@ impl DataModel {
                                     match field.field_type {
                                         FieldType::Float => {
                                             field.default_value =
-                                                Some(ParamValue::Float(value.parse()?))
+                                                Some(ParamValue::Float(super::parse_float(value)?))
                                         }
                                         _ => {
                                             return Err(Error::InvalidDefaultValue(
@@ -607,7 +607,7 @@ impl DataModel {
                                     match field.field_type {
                                         FieldType::Float => {
                                             field.default_value =
-                                                Some(ParamValue::Float(value.parse()?))
+                                                Some(ParamValue::Float(super::parse_float(value)?))
                                         }
                                         FieldType::Integer => {
                                             field.default_value =
